@@ -217,3 +217,23 @@ CHECKS["C05"] = {
     ),
     "note": "Payload bytes are not decided (C16 covers chunking). Fixture-internal detail dicts are out of scope." + TRUSTED,
 }
+
+CHECKS["C07"] = {
+    "technique": "class-table/MRO resolution + attribute-definedness + return-kind inference + nullness abstract interpretation",
+    "text": (
+        "Static rules over all 49 matcher and 13 mismatch classes: __str__ of every stock matcher resolves through the "
+        "MRO to a concrete body (found four filesystem matchers inheriting the abstract stub, fixed); every self.x read "
+        "is assigned somewhere in the MRO or by every concrete subclass (found FileContains.__str__, fixed); every "
+        "mismatch class resolves describe() to a concrete body or passes a description to Mismatch.__init__ at every "
+        "construction site, and get_details() to a dict-returning body; return-kind inference shows every describe "
+        "returns text or delegates; %-formats whose right operand may be the matchee are tuple-safe (found "
+        "MatchesPredicate, fixed); a nullness abstract interpretation with the verdict symbolic shows assertThat / "
+        "assert_that raise iff the verdict is a mismatch and expectThat never raises but forces failure. These hold "
+        "for every matchee, which example-based description tests cannot show."
+    ),
+    "note": (
+        "Not decided: text_repr output evaluating back to the original string over all code points, and non-ASCII "
+        "behaviour of repr (runtime value properties). Observation outside the statement: LabelledMismatches stores a "
+        "generator, so a second describe() of a MatchesDict mismatch is empty." + TRUSTED
+    ),
+}
